@@ -16,6 +16,18 @@ pub uninterp spec fn utf8(s: Seq<char>) -> Seq<u8>;
 pub fn str_bytes(s: &str) -> (r: &[u8]) ensures r@ == utf8(s@) { s.as_bytes() }
 #[verifier::external_body]
 pub fn str_len(s: &str) -> (r: usize) ensures r == utf8(s@).len() { s.len() }
+/// slicing a `str` by a byte offset panics unless the offset is a character boundary (A-UTF8: an uninterpreted
+/// predicate; 0 and the length are boundaries; `is_char_boundary` decides it)
+pub uninterp spec fn char_boundary(s: Seq<char>, n: int) -> bool;
+pub broadcast axiom fn axiom_boundary_ends(s: Seq<char>)
+    ensures #[trigger] char_boundary(s, 0), char_boundary(s, utf8(s).len() as int);
+#[verifier::external_body]
+pub fn str_slice_to(s: &str, n: usize) -> (r: &str)
+    requires n <= utf8(s@).len(), char_boundary(s@, n as int),
+    ensures utf8(r@) == utf8(s@).subrange(0, n as int),
+{ &s[..n] }
+#[verifier::external_body]
+pub fn str_is_char_boundary(s: &str, n: usize) -> (r: bool) ensures r == (n <= utf8(s@).len() && char_boundary(s@, n as int)) { s.is_char_boundary(n) }
 pub fn vmin(a: usize, b: usize) -> (r: usize) ensures r == (if a <= b { a } else { b }) { if a <= b { a } else { b } }
 /// R17: `dst[..n].clone_from_slice(&src[..n])`: the first n bytes of src replace the first n bytes of dst
 /// (both slicings and the equal-length requirement of clone_from_slice are the precondition)
@@ -29,7 +41,10 @@ impl Lead {
     Fn(LEAD, 'new', impl='impl Lead',
        subs=[ret(),
              ('std::cmp::min(name_arr.len() - 1, name.len())', 'vmin(name_arr.len() - 1, str_len(name))', 1, 'R12-cmp::min; A-UTF8 byte length'),
-             ('name_arr[..name_size].clone_from_slice(&name.as_bytes()[..name_size]);', 'copy_prefix(&mut name_arr, str_bytes(name), name_size);', 1, 'R17-slicing + clone_from_slice'),
+             (re.compile(r'\b(\w+)\.is_char_boundary\((\w+)\)'), r'str_is_char_boundary(\1, \2)', None, 'A-UTF8: str::is_char_boundary'),
+             (re.compile(r'&?\b(\w+)\[\.\.(\w+)\]\.as_bytes\(\)'), r'str_bytes(str_slice_to(\1, \2))', None, 'R17-slicing a str by a byte offset: the offset must be a character boundary'),
+             (re.compile(r'(\w+)\[\.\.(\w+)\]\.(?:clone|copy)_from_slice\(&(\w+)\.as_bytes\(\)\[\.\.\2\]\);'), r'copy_prefix(&mut \1, str_bytes(\3), \2);', None, 'R17-slicing + clone_from_slice / copy_from_slice'),
+             (re.compile(r'(\w+)\[\.\.(\w+)\]\.(?:clone|copy)_from_slice\((str_bytes\(str_slice_to\(\w+, \2\)\))\);'), r'copy_prefix(&mut \1, \3, \2);', None, 'R17-slicing + clone_from_slice / copy_from_slice'),
              ('let mut name_arr = [0; 66];', 'let mut name_arr: [u8; 66] = [0u8; 66];', 1, 'R9-type-annotation')],
        spec='''    ensures
         r.magic@ == seq![0xedu8, 0xab, 0xee, 0xdb], r.major == 3, r.minor == 0,
@@ -49,5 +64,5 @@ pub fn canary_lead(name: &str)
 '''),
 ] + TAIL
 
-OBLIGATIONS = {'Lead::new': ['C09']}
+OBLIGATIONS = {'Lead::new': ['C09', 'C17', 'C06']}   # C17/C06: prepare_data calls it with the package name - any string, no panic
 CANARIES = ['canary_lead']
